@@ -8,7 +8,7 @@
                      (v = 0), the k-th one a write cut short (v = 1), power loss after k operations (v = 2) *)
 From Coq Require Import List NArith Lia.
 From Coq Require Import Permutation ZArith.
-From C19 Require Import Model ProofsMap ProofsProto ProofsMerge.
+From C19 Require Import Model ProofsMap ProofsIds ProofsAgg ProofsProto ProofsMerge ProofsDir.
 Import ListNotations.
 
 (* thm:C19_resume_complete, part 1 — the first run (StartSearch + processRequest on an empty directory):
@@ -65,26 +65,66 @@ Proof.
   assert (f = 1%N) by lia. subst. inversion H. split; [reflexivity|]. simpl. auto.
 Qed.
 
-(* thm:C19_equals_sync — PARTIAL (see the report): the full statement is
-     forall qs qs', Permutation qs qs' ->
-       same_answer limit (fetch hi rev qs') (sync_search naggs limit hi rev qs) = true
-   (under: group tokens valid UTF-8, i.e. the JSON key codec is injective on them; <= 8096 samples per
-   bin). Proved here: the histogram component is a fold of commuting events (bucket additions modulo
-   2^64 and duplicate repairs), so it does not depend on the order of the files nor on when the
-   duplicates are repaired. The ID and aggregation components are checked on every generated case
-   (case_spec_ok on the real outputs, case_agrees against this model), not proved. *)
-Theorem C19_equals_sync_hist_partial : forall e1 e2 h, Permutation e1 e2 ->
+(* thm:C19_resume_complete with the fraction list that is ALIVE when the resume runs as an arbitrary
+   extra parameter: as long as the persisted fractions still exist (incl fs live), fractions that
+   appeared after StartSearch (new active fraction after a restart, rotation, ingest) do not change a
+   single operation of the resumed run — it walks the names persisted in <id>.info. *)
+Theorem C19_resume_complete_any_live_list : forall fs live s, inv fs s -> incl fs live ->
+  resume_live s live fs = (flat_map group (remaining s fs) ++ done_write, false)
+  /\ final fs (apply_ops s (fst (resume_live s live fs))).
+Proof. exact resume_complete_live. Qed.
+Print Assumptions C19_resume_complete_any_live_list.
+
+(* thm:C19_equals_sync on lists of partial results: merging them one by one in ANY order, each time
+   sorting, removing repetitions and repairing the histogram (FetchSearchResult) gives the IDs (up to
+   the request's limit), the histogram and the aggregation samples of one batch merge (SearchDocs).
+   No hypothesis about IDs stored in two fractions is needed for the repaired code.
+   aggsok n: every partial result carries n aggregations whose sample counts are not negative. *)
+Theorem C19_equals_sync_lists : forall hi rev naggs limit qs qs', Permutation qs qs' ->
+  Forall (fun q => aggsok naggs (q_aggs q)) qs ->
+  let a := fetch hi rev qs' in
+  let s := sync_search naggs limit hi rev qs in
+  take limit (q_ids a) = q_ids s /\ q_hist a = q_hist s /\ aggs_equiv (q_aggs a) (q_aggs s).
+Proof. exact equals_sync_lists. Qed.
+Print Assumptions C19_equals_sync_lists.
+
+(* thm:C19_equals_sync: what FetchSearchResult reads from a finished directory (every <id>.*.qpr in
+   Glob order, each decoded through the JSON key codec) merges to the synchronous answer over the
+   start-time fraction list. Hypothesis codec_id: the key codec maps every bin of the partial results
+   to itself — true when the group tokens are valid UTF-8; see C19_json_key_collision_refuted. *)
+Theorem C19_equals_sync : forall fs per s hi rev naggs limit codec,
+  final fs s -> dir_sorted s -> NoDup fs ->
+  let qs := map (fun f => qpr_of per (CQpr f)) fs in
+  Forall (fun q => aggsok naggs (q_aggs q) /\ codec_id codec q) qs ->
+  let a := fetch hi rev (map (recode codec) (stored_qprs per s)) in
+  let sy := sync_search naggs limit hi rev qs in
+  take limit (q_ids a) = q_ids sy /\ q_hist a = q_hist sy /\ aggs_equiv (q_aggs a) (q_aggs sy).
+Proof. exact equals_sync_dir. Qed.
+Print Assumptions C19_equals_sync.
+
+(* the property end to end: after ANY chain of crashes of the run and of resumed runs, with ANY live
+   fraction list containing the start-time fractions, a request that is on disk is finished by the
+   restart (Done, process alive) and its fetched answer equals the synchronous search over the
+   start-time fraction list. *)
+Theorem C19_resumed_equals_sync : forall fs chain live per hi rev naggs limit codec,
+  NoDup fs -> incl fs live ->
+  let qs := map (fun f => qpr_of per (CQpr f)) fs in
+  Forall (fun q => aggsok naggs (q_aggs q) /\ codec_id codec q) qs ->
+  let s := chain_state fs [] (start_ops fs) chain in
+  found s = true ->
+  let s' := apply_ops s (fst (resume_live s live fs)) in
+  let a := fetch hi rev (map (recode codec) (stored_qprs per s')) in
+  let sy := sync_search naggs limit hi rev qs in
+  is_done s' = true /\ snd (resume_live s live fs) = false
+  /\ take limit (q_ids a) = q_ids sy /\ q_hist a = q_hist sy /\ aggs_equiv (q_aggs a) (q_aggs sy).
+Proof. exact resumed_equals_sync. Qed.
+Print Assumptions C19_resumed_equals_sync.
+
+(* the histogram is a fold of commuting events (used above; kept as a statement of its own) *)
+Theorem C19_hist_events_order_free : forall e1 e2 h, Permutation e1 e2 ->
   fold_left hist_event e1 h = fold_left hist_event e2 h.
 Proof. exact hist_events_order_free. Qed.
-Print Assumptions C19_equals_sync_hist_partial.
-
-Theorem C19_fetch_step_hist : forall acc q hi rev, (0 <? hi)%N = true ->
-  q_hist (merge_qprs acc [q] None hi rev)
-  = fold_left hist_event
-      (q_hist q ++ map (repair_event hi) (snd (dedup (sort_ids rev (q_ids acc ++ q_ids q)))))
-      (q_hist acc).
-Proof. exact merge_step_hist. Qed.
-Print Assumptions C19_fetch_step_hist.
+Print Assumptions C19_hist_events_order_free.
 
 (* ex:C19_hist_interval_witness — the code before commit c0f0c39 (histInterval = 1 in
    FetchSearchResult) is refuted: bucket 1000 stays over-counted and a bucket 1005 with count 2^64-1
@@ -96,16 +136,31 @@ Example C19_hist_interval_v0_refuted :
   /\ q_ids (fetch 10 false [w_q1; w_q2]) = q_ids (sync_search 0 100 10 false [w_q1; w_q2]).
 Proof. vm_compute. repeat split. Qed.
 
-(* known finding resume/invalid-utf8-group, as a model-level witness: if the JSON key codec maps two
-   bins to one key (tokens "\xff" and "\xfe" both become U+FFFD) the decoded partial result has lost
-   a bin, so the merged answer differs from the synchronous one. The equality statement above
-   therefore carries the hypothesis that the codec is injective on the group tokens. *)
-Definition rekey (codec : N -> N) (a : agg) : agg :=
-  (fst a, fold_left (fun m e => nm_upd (codec (fst e)) (fun _ => snd e) m) (snd a) []).
+(* known finding resume/invalid-utf8-group at model level: a codec that maps bins 1 and 2 (tokens
+   "\xfe", "\xff") to one key (U+FFFD) loses a bin; with the identity codec nothing is lost. *)
+Definition w_x : sc := {| sc_min := 48; sc_max := 48; sc_sum := 48; sc_total := 1; sc_ne := 0; sc_samples := [] |}%Z.
+Definition w_y : sc := {| sc_min := 32; sc_max := 32; sc_sum := 32; sc_total := 1; sc_ne := 0; sc_samples := [] |}%Z.
+Definition w_agg : agg := (0%Z, [(1, w_x); (2, w_y)]%N).
+Definition w_codec (b : N) : N := if orb (b =? 1)%N (b =? 2)%N then 3%N else b.
 Example C19_json_key_collision_refuted :
-  let x := {| sc_min := 48; sc_max := 48; sc_sum := 48; sc_total := 1; sc_ne := 0; sc_samples := [] |}%Z in
-  let y := {| sc_min := 32; sc_max := 32; sc_sum := 32; sc_total := 1; sc_ne := 0; sc_samples := [] |}%Z in
-  let a : agg := (0%Z, [(1, x); (2, y)]%N) in
-  let codec := fun b : N => if orb (b =? 1)%N (b =? 2)%N then 3%N else b in
-  length (snd (rekey codec a)) = 1%nat /\ length (snd (rekey (fun b => b) a)) = 2%nat.
+  length (snd (rekey w_codec w_agg)) = 1%nat /\ rekey (fun b => b) w_agg = w_agg.
 Proof. vm_compute. split; reflexivity. Qed.
+
+(* non-vacuity of the hypotheses of C19_equals_sync: a finished sorted directory with two fractions whose
+   partial results carry one aggregation each and share an ID *)
+Definition w_qa : qpr := {| q_ids := [(1005, 1)]; q_hist := [(1000, 1)]; q_aggs := [w_agg]; q_total := 0 |}.
+Definition w_qb : qpr := {| q_ids := [(1005, 1); (1012, 2)]; q_hist := [(1000, 1); (1010, 1)];
+                            q_aggs := [(1%Z, [(2, w_y)]%N)]; q_total := 0 |}.
+Example C19_equals_sync_hypotheses_witness :
+  let s : dir := [(0, CInfo true); (2, CQpr 0); (4, CQpr 1)]%N in
+  let per := [(0, w_qa); (1, w_qb)]%N in
+  dir_sorted s /\ NoDup [1; 0]%N
+  /\ Forall (fun q => aggsok 1 (q_aggs q) /\ codec_id (fun b => b) q) (map (fun f => qpr_of per (CQpr f)) [1; 0]%N)
+  /\ is_done s = true
+  /\ q_hist (fetch 10 false (stored_qprs per s)) = [(1000, 1); (1010, 1)]%N.
+Proof.
+  split; [|split; [|split; [|split; reflexivity]]].
+  - unfold dir_sorted, keys_sorted. simpl. repeat constructor; lia.
+  - repeat constructor; simpl; intuition discriminate.
+  - simpl. repeat constructor; simpl; unfold evok, nonneg; simpl; try lia; try reflexivity.
+Qed.
